@@ -53,6 +53,8 @@ def scenarios(ctx):
         c = dict(cfg, wf=1, n=1, cls=cls, dump=0)
         whole = [(">", req), ("<", res)]
         out.append(Scn(name + ".whole", whole, c, (), exp))
+        if cuts == "none":
+            return
         pts = list(range(max(1, body_off - 2), min(len(res), body_off + body_len + 1)))
         if cuts == "auto":
             if len(pts) > (24 if q else 400):
@@ -113,6 +115,23 @@ def scenarios(ctx):
     lz = lzma_alone(zeros[: 1 << 20])
     res = A(200, hdrs=[(b"Content-Encoding", b"lzma")], body=lz)
     add("bomb/zeros_lzma", res, res.index(b"\r\n\r\n") + 4, len(lz), None, {"bomb": 10000, "lzmalayers": 1, "maxcb": 100000000}, "bomb", cuts="few")
+    # Content-Encoding lists: rows generated by TLC from spec/CEChain.tla (names x separator x layer limit x LZMA layer limit);
+    # the wire carries the layers a conforming sender applied (last name outermost), the expectation is what the specification
+    # says is left on the payload after the chain (nothing when no limit interferes)
+    enc = {"gzip": lambda b: gzip.compress(b, mtime=0), "zlib": zlib.compress, "raw": raw_deflate, "lzma": lzma_alone}
+
+    def layered(layers):
+        b = text
+        for l in reversed(layers):
+            b = enc[l](b)
+        return b
+    for i, r in enumerate(ctx.ce_rows):
+        wire_body = layered(r["stack"])
+        res = A(200, hdrs=[(b"Content-Encoding", bytes(r["value"]))], body=wire_body)
+        expect = None if r["mismatch"] else layered(r["residual"])
+        cuts = "few" if (len(r["stack"]) > 1 and (not q or i % 4 == 0)) else "none"
+        add("ce/%d.%s.l%d.z%d" % (i, bytes(r["value"]).decode().replace(" ", "_"), r["ll"], r["zl"]), res, res.index(b"\r\n\r\n") + 4, len(wire_body), expect,
+            {"layers": r["ll"], "lzmalayers": r["zl"]}, "celist", cuts=cuts, wirelen=len(wire_body))
     # request side (request decompression enabled)
     reqz = b"POST /u HTTP/1.1\r\nHost: h\r\nContent-Encoding: gzip\r\nContent-Length: %d\r\n\r\n" % len(gz) + gz
     for cpos in [None] + list(range(len(reqz) - len(gz) - 1, len(reqz), 5 if q else 1)):
@@ -129,6 +148,18 @@ def run(ctx):
         ctx.violations.append({"clause": "Model:" + inv, "what": mc.out[-1500:], "sites": []})
     w = vlib.run_tlc(ctx, "Decomp", "Decomp_f12.cfg", workers=1, timeout=600, xmx="4g")
     ctx.notes.append("Decomp_f12.cfg: the design-level witness of finding F12 is %s by TLC" % ("reproduced" if "F12Unreachable" in w.violated else "NOT reproduced"))
+    # (the specification of the decompressor chain: meta-properties, the design-level witness of D35, and the rows for the code)
+    cm = vlib.tlc_or_die(ctx, "CEChainMC", "CEChainMC.cfg" if ctx.quick else "CEChainMC_thorough.cfg", workers=vlib.NCPU, timeout=3000, xmx="8g")
+    for inv in cm.violated:
+        ctx.violations.append({"clause": "Model:CEChain:" + inv, "what": cm.out[-1500:], "sites": []})
+    w35 = vlib.run_tlc(ctx, "CEChainMC", "CEChainMC_d35.cfg", workers=1, timeout=600, xmx="4g")
+    ctx.notes.append("CEChainMC_d35.cfg: with the original (appending) chain construction TLC %s the Faithful clause (defect D35)" % ("refutes" if "Faithful" in w35.violated else "does NOT refute"))
+    cfgp = ctx.path("cegen.cfg")
+    open(cfgp, "w").write("CONSTANTS FixD35 = TRUE  MaxTokens = %d  Limits = {0, 1, 2, 3}\nINIT Init\nNEXT Next\nINVARIANT Emit\nCHECK_DEADLOCK FALSE\n" % (2 if ctx.quick else 3))
+    cg = vlib.tlc_or_die(ctx, "CEChainGen", cfgp, workers=1, timeout=1200, xmx="4g", name="cegen")
+    ctx.ce_rows = sorted(vlib.printed_json(cg, "ROW"), key=lambda r: (r["value"], r["ll"], r["zl"]))
+    if len(ctx.ce_rows) < 3000:
+        raise vlib.Infra("CEChainGen produced %d rows" % len(ctx.ce_rows))
     scns = scenarios(ctx)
     import drift
     drift.with_steps(scns, every=max(1, -(-len(scns) // (500 if ctx.quick else 6000))))
